@@ -625,16 +625,40 @@ def r04e(model, ctx):
             ctx.check(handled(lf), R, f"rtlil.{meth}:{n}", f"branch at line {lf.lineno if lf else '?'}",
                       f"netlist cell class {n} has no branch in ModuleEmitter.{meth}", f"{RTLIL}:{fn.lineno}")
     # emit_cell_wires widths per class (also used by R-07a)
+    # the loop body is specialised per cell class (isinstance tests pinned, helper methods of ModuleEmitter expanded):
+    # the width handed to the output wire is then a single expression
+    from ..engine import refsem
     fn = model.func(f"{RTLIL}::ModuleEmitter.emit_cell_wires")
-    lvs = dispatch_leaves([s for s in fn.body if isinstance(s, ast.For)][0].body)
+    loop = [s for s in fn.body if isinstance(s, ast.For)]
+    need(len(loop) == 1, "emit_cell_wires: cell loop not found")
+    aliases = {"cell"}
+    for st in loop[0].body:
+        if isinstance(st, ast.Assign) and unparse(st.targets[0]) == "cell":
+            aliases.add(unparse(st.value))
+    inline = refsem.inline_table(model, RTLIL, "ModuleEmitter", exclude=("emit_cell_wires",))
     WIDTHS = {"AssignmentList": "len(cell.default)", "Operator": "cell.width", "Part": "cell.width",
               "AnyValue": "cell.width", "SyncReadPort": "cell.width", "AsyncReadPort": "cell.width",
               "FlipFlop": "len(cell.data)", "Initial": "1", "IOBuffer": "len(cell.port)"}
     for n, w in WIDTHS.items():
-        lf = select_leaf(lvs, {"class": n})
-        got = [unparse(s.value) for s in (lf.body if lf else []) if isinstance(s, ast.Assign) and unparse(s.targets[0]) == "width"]
-        ctx.check(got == [w], R, f"emit_cell_wires:width:{n}", f"output wire width {w}",
-                  f"output wire of {n} must be {w} bits wide (its output_nets), found {got}", f"{RTLIL}:{lf.lineno if lf else 0}")
+        paths = run_paths(list(loop[0].body), inline=inline, fold=refsem.class_fold(aliases, n), depth=3)
+        # the width of the wire: the bound of `range(..)` in the net list handed to emit_driven_wire on the paths that get there
+        got = set()
+        for p in paths:
+            if p.how != "fall":
+                continue
+            for nm in ("nets", "wire"):
+                v = p.env.get(nm)
+                if v is None:
+                    continue
+                for c in ast.walk(v):
+                    if isinstance(c, ast.Call) and dotted(c.func) == "range" and len(c.args) == 1:
+                        got.add(unparse(c.args[0]))
+                if got:
+                    break
+        for a in sorted(aliases - {"cell"}, key=len, reverse=True):
+            got = {g.replace(a, "cell") for g in got}
+        ctx.check(got == {w}, R, f"emit_cell_wires:width:{n}", f"output wire width {w}",
+                  f"output wire of {n} must be {w} bits wide (its output_nets), found {sorted(got)}", f"{RTLIL}:{loop[0].lineno}")
 
 
 # ----------------------------------------------------------------------------------------------- R-04f
